@@ -55,7 +55,7 @@ var hostileBodies = [][]byte{
 	[]byte("0null"), []byte("0{}"), []byte(`0{"sid":null}`), []byte(`0{"sid":123}`), []byte(`0[]`), []byte(`0"x"`), []byte("0{\"sid\":\""), []byte("2probe"), []byte("3probe"), []byte("5"),
 	[]byte("99999999999:4a"), []byte("18446744073709551616:4"), []byte("-1:4"), []byte("1:"), []byte(":"), []byte("4:4a"), []byte("1e3:4"), []byte("0:"), []byte("3:4é"), []byte("2:4\xff"),
 	[]byte("\x1e"), []byte("\x1e\x1e\x1e"), []byte("4a\x1e"), []byte("\x1e4a"), []byte("4\xc3"), []byte("\xff\xfe\xfd"), []byte("\x00\x01\xff"), []byte("\x00\x09\x09\x09\x09\x09\x09\x09\x09\x09\xff4"), []byte("\x01\xff"), []byte("\x00\xff"), []byte("\x02\x01\xff4"),
-	[]byte("\x00\x01"), []byte("\x01\x09\x09\xff\x04"), bytes.Repeat([]byte{0xff}, 40), bytes.Repeat([]byte("9"), 400),
+	[]byte("0\xfd\t\xff"), []byte("\x00\xfd\x09\xff4"), []byte("\x01-\xff"), []byte("\x00\x2d\x31\xff"), []byte("\x00\x01"), []byte("\x01\x09\x09\xff\x04"), bytes.Repeat([]byte{0xff}, 40), bytes.Repeat([]byte("9"), 400),
 	[]byte("d="), []byte("d=4a"), []byte("d=%"), []byte("d=%zz"), []byte("x=1&d=4a&d=4b"), []byte("d=" + strings.Repeat("\\n", 50)), []byte("d=1:4\\\\n"),
 }
 
